@@ -17,8 +17,12 @@ SAFE_METRICS = ["euclidean", "squared_euclidean", "manhattan", "chebyshev", "log
 
 
 # --------------------------------------------------------------------------- vectors
-def dom_vec(rng, kind, n, zeros=False):
+def dom_vec(rng, kind, n, zeros=False, tiny=False):
     """One vector of length n in domain `kind` (R/N/P/Q). zeros=True plants exact zeros (N/P/Q)."""
+    if kind in ("R", "N") and (tiny or rng.random() < 0.03):
+        # values straddling the library's EPSILON (1e-20): exact comparisons must not turn into thresholds
+        v = rng.integers(0, 4, size=n).astype(float) * 0.8e-20
+        return v if kind == "N" else v * rng.choice([-1.0, 1.0], size=n)
     if kind == "R":
         mode = rng.integers(0, 4)
         if mode == 0:
